@@ -172,6 +172,13 @@ pub fn na() -> Spec {
             d("SYSTem:BYTes", &[U8, U8, U8, U8, U8, U8, U8, U8, U8, U8], R::None, false),
             d("SYSTem:SUM?", &[I16, I16, I16, I16], R::Int(I64), false),
             d("SYSTem:NAMes", &[Str, Str, Str, Str], R::None, false),
+            // handlers whose parameter / response type is defined by the user (emitted as the keyword
+            // enum `Mode` by the no-alloc code generator; the table says bool so that the literal
+            // generator writes ON/off/True/1/0 and mismatches)
+            d("USER:MODE", &[Bool], R::None, false),
+            d("USER:MODE?", &[], R::Bool, false),
+            d("USER:AMODe", &[U8, Bool], R::None, true),
+            d("USER:AMODe?", &[Bool], R::Bool, true),
         ],
     }
 }
